@@ -44,7 +44,6 @@ structure SpecSt where
   lastRead : Option (String × Int × ORes)       -- tag, time, result of the read just before (inspections aside)
   ctxStack : List Snap                          -- clock seen just before each open `with`
   frames : List Frame
-  sentinel : Option String
   failure : Option String
   checked : Nat
 
@@ -61,10 +60,7 @@ def checkTd (dynTD : Bool) (st : SpecSt) (i : Nat) (e : OEv) : SpecSt :=
   match e.touched with
   | some { g := _, kind := .td n s } =>
     let placeholder (st : SpecSt) : SpecSt :=
-      if e.clock.time == -1 then
-        (if st.sentinel.isSome then st else
-          { st with sentinel := some s!"sentinel: event {i} ({e.tag}): first read at time -1 returned the placeholder" })
-      else fail st s!"event {i} ({e.tag}): read of a time-dependent generator returned the placeholder at time {e.clock.time}"
+      fail st s!"event {i} ({e.tag}): read of a time-dependent generator returned the placeholder at time {e.clock.time}"
     match e.res with
     | .ok .none => placeholder st
     | .raised "ValueError" => placeholder st
@@ -164,12 +160,11 @@ def specStep (dynTD : Bool) (acc : SpecSt × Nat) (e : OEv) : SpecSt × Nat :=
   let st := checkSaved st i e
   ({ st with prev := e }, i + 1)
 
-/-- Returns (number of conclusions checked, first violation).  A violation other than the
-sentinel one is reported first. -/
+/-- Returns (number of conclusions checked, first violation). -/
 def specTrace (dynTD : Bool) (init : OEv) (evs : List OEv) : Nat × Option String :=
   let st0 : SpecSt := { prev := init, table := [], lastRead := none, ctxStack := [], frames := [],
-                        sentinel := none, failure := none, checked := 0 }
+                        failure := none, checked := 0 }
   let (st, _) := evs.foldl (specStep dynTD) (st0, 0)
-  (st.checked, match st.failure with | some f => some f | none => st.sentinel)
+  (st.checked, st.failure)
 
 end ParamVerif.TimeDyn
